@@ -95,6 +95,23 @@ Theorem C14_price_round_trip : forall t p, MinInitializedTickV2 <= t <= MaxTick 
 Proof. exact price_round_trip_main. Qed.
 Print Assumptions C14_price_round_trip.
 
+(* the candidate mechanism: for EVERY price of a tick's bucket (not only tick prices, any of the 10^36 grid)
+   CalculatePriceToTick returns that tick or its successor - never further off *)
+Theorem C14_price_to_tick_candidate : forall u p pu pu1, MinInitializedTickV2 <= u < MaxTick ->
+  tick_to_price u = Ok pu -> tick_to_price (u + 1) = Ok pu1 -> pu <= p < pu1 ->
+  calculate_price_to_tick p = Ok u \/ calculate_price_to_tick p = Ok (u + 1).
+Proof. exact price_to_tick_near_main. Qed.
+Print Assumptions C14_price_to_tick_candidate.
+(* "or its successor" cannot be dropped.  NOT a clause of property C14 and not a finding (the only caller is
+   CalculateSqrtPriceToTick, which corrects the candidate) - recorded because it is why the correction is needed:
+   above 10^25 QuoMut rounds half-even before TruncateInt64, e.g. price(270000005) - 10^-18 maps to 270000005 *)
+Definition C14_price_to_tick_floor_claim : Prop := forall u p pu pu1, MinInitializedTickV2 <= u < MaxTick ->
+  tick_to_price u = Ok pu -> tick_to_price (u + 1) = Ok pu1 -> pu <= p < pu1 -> calculate_price_to_tick p = Ok u.
+Theorem C14_price_to_tick_is_not_floor : exists u p pu pu1, MinInitializedTickV2 <= u < MaxTick /\
+  tick_to_price u = Ok pu /\ tick_to_price (u + 1) = Ok pu1 /\ pu <= p < pu1 /\ calculate_price_to_tick p <> Ok u.
+Proof. exact price_to_tick_floor_refuted. Qed.
+Print Assumptions C14_price_to_tick_is_not_floor.
+
 (* ---- sqrt price -> tick ---- *)
 (* bucket mapping on the swap-reachable range, for EVERY sqrt price between adjacent ticks: lower edge inclusive,
    upper edge exclusive.  (Proof: the candidate computed from the half-even rounded square, chopped to 18 decimals,
